@@ -58,7 +58,7 @@ func TestC22RefSelf(t *testing.T) {
 	q = base()
 	q.Cols = []c22Col{{Func: "count", Field: "f0"}, {Func: "mean", Field: "f1"}}
 	q.Interval = 20 * c22U
-	check("count/mean by time", q, "m{}[ -40000000000:0i,null -20000000000:3i,1.5 0:2i,-2.25 20000000000:1i,null ] ")
+	check("count/mean by time", q, "m{}[ -40000000000:0i,null -20000000000:3i,1.5~ 0:2i,-2.25~ 20000000000:1i,null ] ")
 	q = base()
 	q.Cols = []c22Col{{Func: "sum", Field: "f0"}}
 	q.Interval, q.Offset, q.GroupTags, q.Fill = 10*c22U, 3*c22U, []string{"t"}, 'p'
@@ -73,7 +73,7 @@ func TestC22RefSelf(t *testing.T) {
 	q.Cols = []c22Col{{Func: "mean", Field: "f0"}}
 	q.Interval, q.Fill, q.TLo, q.THi = 10*c22U, 'l', -20*c22U, 20*c22U-1
 	q.Cond = &c22Cond{Op: "tag", Key: "t", Cmp: "=", Str: "b", Lit: 's'}
-	check("linear", q, "m{}[ -20000000000:2 -10000000000:3~ 0:4~ 10000000000:5 ] ")
+	check("linear", q, "m{}[ -20000000000:2~ -10000000000:3~ 0:4~ 10000000000:5~ ] ")
 	q = base()
 	q.Cols = []c22Col{{Func: "derivative", Field: "f0", Unit: 2 * c22U}}
 	q.GroupStar = true
